@@ -190,6 +190,7 @@ CAMPAIGNS.update({
     "hdf5_roundtrip": model_campaign(
         "hdf5_roundtrip", palettes=FILEP, heaps="files",
         quick=[ex(ph(["rt_hdf5"], True, "r")),
+               ex(ph(["rt_json", "rt_tsv", "rt_hdf5"], False, "same"), ph(["rt_hdf5"], True, "r", 6)),   # file -> file chains
                ex(ph(LAYOUT + ["update_ids", "subsample"], pick=10), ph(["rt_hdf5"], True, "r", 6)),
                ex(ph(LAYOUT, pick=5), ph(LAYOUT + ["subsample"], pick=3), ph(["rt_hdf5"], True, "r", 3))],
         thorough=[ex(ph(LAYOUT + ["update_ids", "subsample"]), ph(["rt_hdf5"], True, "r")),
@@ -197,12 +198,14 @@ CAMPAIGNS.update({
     "json_roundtrip": model_campaign(
         "json_roundtrip", palettes=FILEP, heaps="json",
         quick=[ex(ph(["rt_json"], True, "r")),
+               ex(ph(["rt_json", "rt_tsv", "rt_hdf5"], False, "same"), ph(["rt_json"], True, "r", 6)),
                ex(ph(LAYOUT + ["update_ids", "subsample"], pick=10), ph(["rt_json"], True, "r", 6))],
         thorough=[ex(ph(LAYOUT + ["update_ids", "subsample"]), ph(["rt_json"], True, "r")),
                   ex(ph(LAYOUT), ph(LAYOUT + ["subsample"], pick=6), ph(["rt_json"], True, "r", 6))]),
     "tsv_roundtrip": model_campaign(
         "tsv_roundtrip", palettes=TSVP, heaps="files",
         quick=[ex(ph(["rt_tsv"], True, "r")),
+               ex(ph(["rt_json", "rt_tsv", "rt_hdf5"], False, "same"), ph(["rt_tsv"], True, "r", 8)),
                ex(ph(LAYOUT + ["update_ids", "subsample"], pick=10), ph(["rt_tsv"], True, "r", 8))],
         thorough=[ex(ph(LAYOUT + ["update_ids", "subsample"]), ph(["rt_tsv"], True, "r")),
                   ex(ph(LAYOUT), ph(LAYOUT + ["subsample"], pick=6), ph(["rt_tsv"], True, "r", 8))]),
